@@ -132,6 +132,23 @@ func kBuild(args []string) (string, string) {
 	}
 	res := runBuild(o, args[1], rt0, hdr, content, how)
 	oracle := "ok"
+	// C03 on the builder path: length / digests the caller did not declare are the builder's own and can never be "wrong"
+	{
+		suppliedAny := false
+		for _, nv := range hdr {
+			if strings.EqualFold(nv[0], "Content-Length") || strings.EqualFold(nv[0], "WARC-Block-Digest") || strings.EqualFold(nv[0], "WARC-Payload-Digest") {
+				suppliedAny = true
+			}
+		}
+		if !suppliedAny {
+			all := append([]string{res.errTag}, res.fnd...)
+			for _, t := range all {
+				if t == "length" || t == "digestBlock" || t == "digestPayload" {
+					oracle = "VIOL c03-builder-reports-own-values " + t
+				}
+			}
+		}
+	}
 	if res.rec != nil {
 		defer res.rec.Close()
 		// C02: truthfulness of what the builder added, judged on the serialized bytes
@@ -234,7 +251,7 @@ func kRoundtrip(args []string) (string, string) {
 	tail := unhx(args[6])
 	// applicability: the builder accepts headers and content under the strict policy
 	strict := bo
-	strict.syn, strict.spec = 2, 2
+	strict.syn, strict.spec, strict.blk, strict.skip = 2, 2, 2, false // "accepts under strict policy": no axis may complain about the content
 	sres := runBuild(strict, args[2], rt0, hdr, content, "w")
 	applicable := sres.errTag == ""
 	if sres.rec != nil {
